@@ -175,16 +175,23 @@ theorem lineOfInput_src (w : Nat) (strip : List Char → List Char)
   | coloured p =>
     obtain ⟨hk, hpath, hd, hcode, hamb⟩ := ha
     refine ⟨hitOfParsed w (strip p.code) p, ?_, rfl, textKind_not_ignore hk, rfl, rfl, rfl, rfl⟩
-    simp [Src.input, lineOfInput, fmtColoured_head p hk, parseColoured_fmtColoured p hk hpath hd hcode hamb]
+    simp [Src.input, lineOfInput, lineOfInputWith, fmtColoured_head p hk,
+      parseColoured_fmtColoured p hk hpath hd hcode hamb]
   | plain p =>
     obtain ⟨hf, hesc, hbrace⟩ := ha
     refine ⟨hitOfParsed w p.code p, ?_, rfl, textKind_not_ignore (frag_textKind p hf), rfl, rfl, rfl, rfl⟩
-    simp [Src.input, lineOfInput, head_ne_of_not_contains hesc, hstrip _ hesc, hbrace, frag_parse p hf]
+    -- either shape of `parse_grep_line`: `{` lines to the JSON reader only (then the line does not begin with `{`),
+    -- or the regexes after the JSON reader's `None`
+    by_cases hfl : Generated.Grep.jsonFailureFallsBackToRegexes = false
+    · simp [Src.input, lineOfInput, lineOfInputWith, plainLine, head_ne_of_not_contains hesc, hstrip _ hesc,
+        hbrace hfl, frag_parse p hf]
+    · simp [Src.input, lineOfInput, lineOfInputWith, plainLine, head_ne_of_not_contains hesc, hstrip _ hesc,
+        hfl, frag_parse p hf]
   | json v raw =>
     obtain ⟨r, hr, hk⟩ := ha
     refine ⟨{ gtype := r.gtype, kind := r.kind, path := r.path, num := r.num, prefixOk := true,
               code := RipGrepJson.bytesOfChars r.code, subs := r.subs }, ?_, ?_, ?_, ?_, ?_, ?_, ?_⟩
-    · simp only [Src.input, lineOfInput, RipGrepJson.lineOf, hr]
+    · simp only [Src.input, lineOfInput, lineOfInputWith, RipGrepJson.lineOf, hr]
     · exact parseLine_gtype hr
     all_goals simp [Src.meaning, hr, hk]
 
